@@ -1,7 +1,7 @@
-(* C07 requests: 700..708. *)
+(* C07 requests: 700..710. *)
 From Coq Require Import List ZArith Bool.
 From PV Require Import lib.Sx lib.Str lib.Result.
-From PV Require Import model.DfxpXml model.DfxpRegion spec.SpecXmlAttr extract.OrCommon.
+From PV Require Import model.DfxpXml model.DfxpRegion model.DfxpDoc spec.SpecXmlAttr extract.OrCommon.
 Import ListNotations.
 Open Scope Z_scope.
 
@@ -44,6 +44,30 @@ Definition sx_rset (x : sx) : option rset :=
   | SL [l; ls] => match sx_lay l, sx_listof sx_rlang ls with Some l, Some ls => Some (mkRset l ls) | _, _ => None end
   | _ => None end.
 
+Definition sx_pairs := sx_listof sx_pair.
+Definition sx_dnode (x : sx) : option dnode :=
+  match x with
+  | SL [l; SI sp; c] => match sx_lay l, sx_pairs c with
+                        | Some l, Some c => Some (mkDnode (mkRnode l (negb (sp =? 0))) c) | _, _ => None end
+  | _ => None end.
+Definition sx_dcap (x : sx) : option dcap :=
+  match x with
+  | SL [l; st; ns] => match sx_lay l, sx_opt sx_pairs st, sx_listof sx_dnode ns with
+                      | Some l, Some st, Some ns => Some (mkDcap l st ns) | _, _, _ => None end
+  | _ => None end.
+Definition sx_dlang (x : sx) : option dlang :=
+  match x with
+  | SL [l; cs] => match sx_lay l, sx_listof sx_dcap cs with Some l, Some cs => Some (mkDlang l cs) | _, _ => None end
+  | _ => None end.
+Definition sx_dset (x : sx) : option dset :=
+  match x with
+  | SL [l; sts; ls] =>
+      match sx_lay l, sx_listof (fun y => match y with
+                                          | SL [SS id; c] => match sx_pairs c with Some c => Some (id, c) | None => None end
+                                          | _ => None end) sts, sx_listof sx_dlang ls with
+      | Some l, Some sts, Some ls => Some (mkDset l sts ls) | _, _, _ => None end
+  | _ => None end.
+
 Definition dispatch (code : Z) (arg : sx) : option sx :=
   match code with
   | 700 => Some (match arg with SS v => SS (attr_out v) | _ => bad end)
@@ -74,5 +98,15 @@ Definition dispatch (code : Z) (arg : sx) : option sx :=
                      | _, _, _, _, _ => bad end
                  | _ => bad end)
   | 708 => Some (match arg with SS v => SS (xml_escape v) | _ => bad end)
+  | 709 => Some (match sx_dset arg with
+                 | Some d => let s := summarize d in
+                             SL [of_list SS (s_ids s); of_list SS (s_style_ids s); of_list SS (s_region_ids s);
+                                 of_list SS (s_style_refs s); of_list SS (s_region_refs s); of_bool (dom_doc d)]
+                 | None => bad end)
+  | 710 => Some (match arg with
+                 | SL [sa; r; il] => match sx_pairs sa, sx_opt sx_str r, sx_pairs il with
+                                      | Some sa, Some r, Some il => of_pairs (span_attributes sa r il)
+                                      | _, _, _ => bad end
+                 | _ => bad end)
   | _ => None
   end.
